@@ -20,7 +20,7 @@ ASSUMPTIONS = ["cases outside the model (Unsupported) are inconclusive, never ve
 
 
 def plan(tier):
-    return {"budget_s": 60 if tier == "quick" else 600, "profiles": ["R"], "min_evaluations": 3000}
+    return {"budget_s": 60 if tier == "quick" else 600, "profiles": ["R"], "min_evaluations": 1000}
 
 
 def canon_val(text):
